@@ -3,12 +3,717 @@ From Coq Require Import ZArith NArith List Bool Lia.
 From AGH Require Import Base.Run Base.Bytes Model.HashPrefix.
 Import ListNotations.
 
+#[local] Arguments prefix_of : simpl never.
+
+(** * Membership tests *)
+
+Lemma mem_hash_In h l : mem_hash h l = true <-> In h l.
+Proof.
+  unfold mem_hash. rewrite existsb_exists. split.
+  - intros (x & Hx & E). apply eqb_bytes_eq in E. now subst.
+  - intros H. exists h. split; auto. apply eqb_bytes_refl.
+Qed.
+
+Lemma mem_hash_false h l : mem_hash h l = false <-> ~ In h l.
+Proof. rewrite <- mem_hash_In. destruct (mem_hash h l); split; congruence. Qed.
+
+Lemma find_match_spec a b : find_match a b = true <-> exists h, In h a /\ In h b.
+Proof.
+  unfold find_match. rewrite existsb_exists. split; intros (h & H1 & H2); exists h; split; auto;
+    now apply mem_hash_In.
+Qed.
+
+Lemma find_match_false a b : find_match a b = false <-> forall h, In h a -> ~ In h b.
+Proof.
+  split.
+  - intros H h Ha Hb. assert (find_match a b = true) by (apply find_match_spec; eauto). congruence.
+  - intros H. destruct (find_match a b) eqn:E; auto. apply find_match_spec in E.
+    destruct E as (h & Ha & Hb). exfalso; eapply H; eauto.
+Qed.
+
+(** * The question: only prefixes leave *)
+
+Lemma question_shape suffix hs :
+  question suffix hs = concat (map (fun p => hex_of p ++ [dot]) (map prefix_of hs)) ++ suffix.
+Proof. unfold question. now rewrite flat_map_concat_map, map_map. Qed.
+
 Lemma question_only_prefixes suffix hs1 hs2 :
   map prefix_of hs1 = map prefix_of hs2 -> question suffix hs1 = question suffix hs2.
+Proof. intros H. now rewrite !question_shape, H. Qed.
+
+(** * The cache as a finite map *)
+
+Lemma cget_cdel_eq p c : cget p (cdel p c) = None.
 Proof.
-  unfold question. intros H. f_equal.
-  rewrite !flat_map_concat_map.
-  rewrite <- (map_map prefix_of (fun p => hex_of p ++ [dot]) hs1).
-  rewrite <- (map_map prefix_of (fun p => hex_of p ++ [dot]) hs2).
-  now rewrite H.
+  unfold cget, cdel. induction c as [|[k v] c IH]; cbn; auto.
+  destruct (eqb_bytes k p) eqn:E; cbn; auto. now rewrite E.
 Qed.
+
+Lemma cget_cdel_ne p q c : p <> q -> cget q (cdel p c) = cget q c.
+Proof.
+  intros N. unfold cget, cdel. induction c as [|[k v] c IH]; cbn; auto.
+  destruct (eqb_bytes k p) eqn:E; cbn.
+  - apply eqb_bytes_eq in E. subst k.
+    apply eqb_bytes_neq in N. now rewrite N.
+  - destruct (eqb_bytes k q); auto.
+Qed.
+
+Lemma cget_cset_eq p it c : cget p (cset p it c) = Some it.
+Proof. unfold cget, cset. cbn. now rewrite eqb_bytes_refl. Qed.
+
+Lemma cget_cset_ne p q it c : p <> q -> cget q (cset p it c) = cget q c.
+Proof.
+  intros N. unfold cset, cget at 1. cbn [find fst].
+  apply eqb_bytes_neq in N as N'. rewrite N'. now apply cget_cdel_ne.
+Qed.
+
+Lemma cget_cdel_Some p q c it : cget q (cdel p c) = Some it -> cget q c = Some it.
+Proof.
+  destruct (eqb_bytes p q) eqn:E.
+  - apply eqb_bytes_eq in E. subst. now rewrite cget_cdel_eq.
+  - apply eqb_bytes_neq in E. now rewrite cget_cdel_ne.
+Qed.
+
+(** * findInCache: the in-place compaction *)
+
+(** The entry that answers for [h], if it is there and has not expired. *)
+Definition live (now : Z) (c : cache) (h : hash) : option citem :=
+  match cget (prefix_of h) c with
+  | Some it => if expired now it then None else Some it
+  | None => None
+  end.
+
+Definition is_live now c h : bool := match live now c h with Some _ => true | None => false end.
+
+(** The same loop over an explicit decomposition of the slice:
+    [pre] = compacted part, [mid] = stale slots, [rest] = not yet visited. *)
+Fixpoint fic_ref (now : Z) (c : cache) (pre mid rest : list hash) : find_res :=
+  match rest with
+  | [] => match pre with [] => FoundClean | _ => ToRequest pre end
+  | h :: rest' =>
+      match live now c h with
+      | None => fic_ref now c (pre ++ [h]) (tl (mid ++ [h])) rest'
+      | Some it =>
+          if find_match (pre ++ mid ++ h :: rest') (c_hashes it) then FoundBlocked
+          else fic_ref now c pre (mid ++ [h]) rest'
+      end
+  end.
+
+Lemma upd_app {A} (pre : list A) x a l : upd (length pre) x (pre ++ a :: l) = pre ++ x :: l.
+Proof. induction pre; cbn; congruence. Qed.
+
+Lemma fic_loop_ref now c : forall rest pre mid,
+  fic_loop now c (length rest) (length pre + length mid) (pre ++ mid ++ rest) (length pre)
+  = fic_ref now c pre mid rest.
+Proof.
+  induction rest as [|h rest IH]; intros pre mid.
+  - cbn [length fic_loop fic_ref]. destruct pre as [|a pre]; [reflexivity|].
+    replace (Nat.eqb (length (a :: pre)) 0) with false by reflexivity.
+    remember (a :: pre) as p. rewrite app_nil_r.
+    rewrite firstn_app, Nat.sub_diag, firstn_all. cbn [firstn]. rewrite app_nil_r. now subst.
+  - cbn [length fic_loop fic_ref].
+    assert (Hn : nth (length pre + length mid) (pre ++ mid ++ h :: rest) [] = h).
+    { rewrite app_assoc, <- app_length. apply nth_middle. }
+    rewrite Hn. unfold live.
+    assert (Hupd : upd (length pre) h (pre ++ mid ++ h :: rest)
+                   = (pre ++ [h]) ++ tl (mid ++ [h]) ++ rest).
+    { destruct mid as [|m mid]; cbn [app tl].
+      - rewrite upd_app. now rewrite <- app_assoc.
+      - rewrite upd_app. rewrite <- !app_assoc. reflexivity. }
+    assert (Hlen : S (length pre + length mid) = length (pre ++ [h]) + length (tl (mid ++ [h]))).
+    { rewrite app_length. destruct mid; cbn; rewrite ?app_length; cbn; lia. }
+    assert (Hlen' : S (length pre) = length (pre ++ [h])) by (rewrite app_length; cbn; lia).
+    destruct (cget (prefix_of h) c) as [it|].
+    + destruct (expired now it).
+      * rewrite Hupd, Hlen, Hlen'. apply IH.
+      * destruct (find_match _ _); auto.
+        replace (pre ++ mid ++ h :: rest) with (pre ++ (mid ++ [h]) ++ rest)
+          by (now rewrite <- !app_assoc).
+        replace (S (length pre + length mid)) with (length pre + length (mid ++ [h]))
+          by (rewrite app_length; cbn; lia).
+        apply IH.
+    + rewrite Hupd, Hlen, Hlen'. apply IH.
+Qed.
+
+Lemma find_in_cache_ref now c hashes : find_in_cache now c hashes = fic_ref now c [] [] hashes.
+Proof. unfold find_in_cache. apply (fic_loop_ref now c hashes [] []). Qed.
+
+Lemma in_tl {A} (x : A) l : In x (tl l) -> In x l.
+Proof. destruct l; cbn; auto. Qed.
+
+Lemma fic_ref_spec now c : forall rest pre mid,
+  match fic_ref now c pre mid rest with
+  | FoundBlocked =>
+      exists h it h', In h rest /\ live now c h = Some it /\
+                      In h' (pre ++ mid ++ rest) /\ In h' (c_hashes it)
+  | FoundClean =>
+      pre = [] /\ forall h, In h rest -> exists it, live now c h = Some it /\ ~ In h (c_hashes it)
+  | ToRequest hs =>
+      hs = pre ++ filter (fun h => negb (is_live now c h)) rest /\ hs <> [] /\
+      forall h it, In h rest -> live now c h = Some it -> ~ In h (c_hashes it)
+  end.
+Proof.
+  induction rest as [|h rest IH]; intros pre mid; cbn [fic_ref].
+  - destruct pre; cbn.
+    + split; auto. intros ? [].
+    + rewrite app_nil_r. repeat split; try congruence; intros ? ? [].
+  - destruct (live now c h) as [it|] eqn:L.
+    + destruct (find_match _ _) eqn:FM.
+      * apply find_match_spec in FM. destruct FM as (h' & H1 & H2).
+        exists h, it, h'. repeat split; auto. now left.
+      * assert (Hh : ~ In h (c_hashes it)).
+        { eapply find_match_false; [exact FM|]. rewrite !in_app_iff. right; right; now left. }
+        specialize (IH pre (mid ++ [h])).
+        destruct (fic_ref now c pre (mid ++ [h]) rest) as [| |hs].
+        -- destruct IH as (h0 & it0 & h' & A & B & C & D). exists h0, it0, h'.
+           repeat split; auto; [now right|].
+           rewrite !in_app_iff in C. rewrite !in_app_iff. cbn in *. tauto.
+        -- destruct IH as [-> IH]. split; auto. intros h0 [<-|H0]; eauto.
+        -- destruct IH as (A & B & C). cbn [filter]. unfold is_live at 1. rewrite L. cbn [negb].
+           repeat split; auto. intros h0 it0 [<-|H0] L0; [congruence|eauto].
+    + specialize (IH (pre ++ [h]) (tl (mid ++ [h]))).
+      destruct (fic_ref now c (pre ++ [h]) (tl (mid ++ [h])) rest) as [| |hs].
+      * destruct IH as (h0 & it0 & h' & A & B & C & D). exists h0, it0, h'.
+        repeat split; auto; [now right|].
+        rewrite !in_app_iff in C. rewrite !in_app_iff.
+        destruct C as [[C|C]|[C|C]]; cbn in *; try tauto.
+        apply in_tl in C. rewrite in_app_iff in C. cbn in C. tauto.
+      * destruct IH as [E _]. destruct pre; discriminate.
+      * destruct IH as (A & B & C). cbn [filter]. unfold is_live at 1. rewrite L. cbn [negb].
+        rewrite <- app_assoc in A. repeat split; auto.
+        intros h0 it0 [<-|H0] L0; [congruence|eauto].
+Qed.
+
+(** What [findInCache] returns, in terms of the caller's list. *)
+Lemma find_in_cache_spec now c hashes :
+  match find_in_cache now c hashes with
+  | FoundBlocked =>
+      exists h it h', In h hashes /\ live now c h = Some it /\ In h' hashes /\ In h' (c_hashes it)
+  | FoundClean =>
+      forall h, In h hashes -> exists it, live now c h = Some it /\ ~ In h (c_hashes it)
+  | ToRequest hs =>
+      hs = filter (fun h => negb (is_live now c h)) hashes /\ hs <> [] /\
+      forall h it, In h hashes -> live now c h = Some it -> ~ In h (c_hashes it)
+  end.
+Proof.
+  rewrite find_in_cache_ref. pose proof (fic_ref_spec now c hashes [] []) as H.
+  destruct (fic_ref now c [] [] hashes); cbn [app] in H; auto. now destruct H.
+Qed.
+
+Lemma live_cget now c h it : live now c h = Some it -> cget (prefix_of h) c = Some it.
+Proof.
+  unfold live. destruct (cget (prefix_of h) c) as [i|]; [|discriminate].
+  destruct (expired now i); congruence.
+Qed.
+
+(** * storeInCache keeps the cache exact *)
+
+(** An entry for prefix [p] is exact for database [db]. *)
+Definition entry_ok (db : list hash) (p : prefix) (it : citem) : Prop :=
+  forall h, In h (c_hashes it) <-> In h db /\ prefix_of h = p.
+
+Definition cache_inv (db : list hash) (c : cache) : Prop :=
+  forall p it, cget p c = Some it -> entry_ok db p it.
+
+(** The answer carries exactly the database's hashes under the asked prefixes. *)
+Definition answer_ok (db : list hash) (asked : list prefix) (received : list hash) : Prop :=
+  forall h, In h received <-> In h db /\ In (prefix_of h) asked.
+
+Lemma dedup_In x l : In x (dedup l) <-> In x l.
+Proof.
+  induction l as [|a l IH]; cbn; [tauto|].
+  rewrite filter_In, IH, negb_true_iff, eqb_bytes_neq.
+  destruct (eqb_bytes x a) eqn:E.
+  - apply eqb_bytes_eq in E. subst. tauto.
+  - apply eqb_bytes_neq in E. split; [tauto|]. intros [->|H]; [congruence|]. right; split; auto.
+Qed.
+
+Lemma fold_cset_get (v : prefix -> citem) : forall ps c q,
+  cget q (fold_left (fun c p => cset p (v p) c) ps c)
+  = if mem_hash q ps then Some (v q) else cget q c.
+Proof.
+  induction ps as [|p ps IH]; intros c q; cbn [fold_left]; [reflexivity|].
+  rewrite IH. unfold mem_hash at 2. cbn [existsb]. fold (mem_hash q ps).
+  destruct (mem_hash q ps); [now rewrite orb_true_r|]. rewrite orb_false_r.
+  destruct (eqb_bytes q p) eqn:E.
+  - apply eqb_bytes_eq in E. subst. apply cget_cset_eq.
+  - apply eqb_bytes_neq in E. apply cget_cset_ne. congruence.
+Qed.
+
+Lemma store_negatives_inv db exp (resp : list hash) asked :
+  answer_ok db asked resp ->
+  forall l c,
+    (forall h, In h l -> In (prefix_of h) asked) ->
+    cache_inv db c ->
+    (forall q, In q (map prefix_of resp) -> cget q c <> None) ->
+    cache_inv db (fold_left (fun c h =>
+      match cget (prefix_of h) c with
+      | None => cset (prefix_of h) {| c_expiry := exp; c_hashes := [] |} c
+      | Some _ => c
+      end) l c).
+Proof.
+  intros Hans. induction l as [|h l IH]; intros c Hl Hinv Hpos; cbn [fold_left]; auto.
+  apply IH; [intros; apply Hl; now right| |].
+  - destruct (cget (prefix_of h) c) eqn:G; auto.
+    intros p it. destruct (eqb_bytes (prefix_of h) p) eqn:E.
+    + apply eqb_bytes_eq in E. subst p. rewrite cget_cset_eq. intros [= <-] x. cbn.
+      split; [tauto|]. intros [Hx Hp].
+      apply (Hpos (prefix_of h)); auto.
+      rewrite <- Hp. apply in_map. apply Hans. split; auto. rewrite Hp. apply Hl. now left.
+    + apply eqb_bytes_neq in E. rewrite cget_cset_ne by auto. apply Hinv.
+  - intros q Hq. destruct (cget (prefix_of h) c) eqn:G; auto.
+    destruct (eqb_bytes (prefix_of h) q) eqn:E.
+    + apply eqb_bytes_eq in E. subst q. now rewrite cget_cset_eq.
+    + apply eqb_bytes_neq in E. rewrite cget_cset_ne by auto. auto.
+Qed.
+
+Lemma store_in_cache_inv db exp to_req resp c :
+  answer_ok db (map prefix_of to_req) resp ->
+  cache_inv db c ->
+  cache_inv db (store_in_cache exp to_req resp c).
+Proof.
+  intros Hans Hinv. unfold store_in_cache.
+  set (v := fun p => {| c_expiry := exp;
+                        c_hashes := filter (fun h => eqb_bytes (prefix_of h) p) resp |}).
+  apply store_negatives_inv with (asked := map prefix_of to_req) (resp := resp); auto.
+  - intros h Hh. now apply in_map.
+  - intros p it. rewrite (fold_cset_get v).
+    destruct (mem_hash p (dedup (map prefix_of resp))) eqn:M; [|apply Hinv].
+    apply mem_hash_In, dedup_In, in_map_iff in M. destruct M as (h0 & Hp & H0).
+    intros [= <-] h. cbn. rewrite filter_In, eqb_bytes_eq. split.
+    + intros [Hr Hpre]. split; auto. now apply Hans.
+    + intros [Hd Hpre]. split; auto. apply Hans. split; auto.
+      rewrite Hpre, <- Hp. now apply Hans.
+  - intros q Hq. rewrite (fold_cset_get v).
+    assert (M : mem_hash q (dedup (map prefix_of resp)) = true) by now apply mem_hash_In, dedup_In.
+    rewrite M. discriminate.
+Qed.
+
+Lemma evict_inv db ps : forall c, cache_inv db c -> cache_inv db (fold_left (fun c p => cdel p c) ps c).
+Proof.
+  induction ps as [|p ps IH]; intros c H; cbn [fold_left]; auto.
+  apply IH. intros q it G. apply cget_cdel_Some in G. now apply H.
+Qed.
+
+(** * Check *)
+
+(** A lookup service for database [db]: it may fail; when it answers, the
+    well-formed TXT strings are exactly the database's hashes under the asked
+    prefixes (malformed strings may be present, they are ignored). *)
+Definition svc_ok (db : list hash) (svc : list prefix -> option (list bytes)) : Prop :=
+  forall asked, match svc asked with
+                | None => True
+                | Some strs => answer_ok db asked (parse_txt strs)
+                end.
+
+Section WithOracles.
+  Variable sha : bytes -> hash.
+  Variable pubsuf : bytes -> bytes * bool.
+  Variable suffix : bytes.
+  Variable cache_time : Z.
+
+  Notation hashes_of := (hostname_to_hashes sha pubsuf).
+  Notation check := (check sha pubsuf suffix cache_time).
+
+  (** What the database says about a host: one of the enumerated names is in it. *)
+  Definition db_verdict (db : list hash) (host : bytes) : bool := find_match (hashes_of host) db.
+
+  Lemma db_verdict_spec db host :
+    db_verdict db host = true <-> exists n, In n (names_to_hash pubsuf host) /\ In (sha n) db.
+  Proof.
+    unfold db_verdict, hostname_to_hashes. rewrite find_match_spec. split.
+    - intros (h & H1 & H2). apply in_map_iff in H1. destruct H1 as (n & <- & Hn). eauto.
+    - intros (n & H1 & H2). exists (sha n). split; auto. now apply in_map.
+  Qed.
+
+  Lemma check_transparent db svc now host c :
+    cache_inv db c -> svc_ok db svc ->
+    let res := check svc now host c in
+    cache_inv db (fst res) /\
+    (o_err (snd res) = false -> o_blocked (snd res) = db_verdict db host) /\
+    (o_err (snd res) = true -> fst res = c /\ o_blocked (snd res) = false).
+  Proof.
+    intros Hinv Hsvc. unfold HashPrefix.check.
+    pose proof (find_in_cache_spec now c (hashes_of host)) as S.
+    destruct (find_in_cache now c (hashes_of host)) as [| |hs]; cbn [fst snd o_err o_blocked].
+    - destruct S as (h & it & h' & Hh & L & Hh' & Hit). split; [exact Hinv|split; [|discriminate]].
+      intros _. symmetry. apply find_match_spec. exists h'. split; auto.
+      apply live_cget in L. now apply (Hinv _ _ L).
+    - split; [exact Hinv|split; [|discriminate]]. intros _. symmetry. apply find_match_false.
+      intros h Hh Hdb. destruct (S h Hh) as (it & L & Hn). apply Hn.
+      apply live_cget in L. apply (Hinv _ _ L). auto.
+    - destruct S as (Ehs & Hne & Hclean).
+      specialize (Hsvc (map prefix_of hs)).
+      destruct (svc (map prefix_of hs)) as [strs|]; cbn [fst snd o_err o_blocked].
+      + split; [now apply store_in_cache_inv|]. split; [|discriminate]. intros _.
+        unfold db_verdict.
+        destruct (find_match (hashes_of host) db) eqn:V.
+        * apply find_match_spec in V. destruct V as (h & Hh & Hdb).
+          apply find_match_spec. exists h.
+          assert (Hin : In h hs).
+          { rewrite Ehs. apply filter_In. split; auto. unfold is_live.
+            destruct (live now c h) as [it|] eqn:L; auto. exfalso.
+            apply (Hclean h it Hh L). apply live_cget in L. apply (Hinv _ _ L). auto. }
+          split; auto. apply Hsvc. split; auto. now apply in_map.
+        * apply find_match_false. intros h Hh Hr.
+          eapply find_match_false; [exact V| |apply Hsvc in Hr; apply Hr].
+          rewrite Ehs in Hh. now apply filter_In in Hh.
+      + split; [exact Hinv|split; [discriminate|auto]].
+  Qed.
+
+  (** A fresh lookup (empty cache, answering service) gives the database's verdict. *)
+  Lemma fresh_check_verdict db svc now host :
+    svc_ok db svc -> o_err (snd (check svc now host [])) = false ->
+    o_blocked (snd (check svc now host [])) = db_verdict db host.
+  Proof.
+    intros Hs He. apply (check_transparent db svc now host []); auto. intros p it; discriminate.
+  Qed.
+
+  (** Non-interference at the level of [Check]: whatever the cache holds, two
+      hosts with the same list of prefixes that both go upstream send the
+      same question. *)
+  Lemma check_question_only_prefixes svc1 svc2 now c host1 host2 q1 q2 :
+    map prefix_of (hashes_of host1) = map prefix_of (hashes_of host2) ->
+    o_question (snd (check svc1 now host1 c)) = Some q1 ->
+    o_question (snd (check svc2 now host2 c)) = Some q2 ->
+    q1 = q2.
+  Proof.
+    intros Hp. unfold HashPrefix.check.
+    pose proof (find_in_cache_spec now c (hashes_of host1)) as S1.
+    pose proof (find_in_cache_spec now c (hashes_of host2)) as S2.
+    destruct (find_in_cache now c (hashes_of host1)) as [| |hs1]; try discriminate.
+    destruct (find_in_cache now c (hashes_of host2)) as [| |hs2];
+      try (destruct (svc1 _); discriminate).
+    destruct S1 as (E1 & _), S2 as (E2 & _).
+    assert (Hq : question suffix hs1 = question suffix hs2).
+    { apply question_only_prefixes. subst hs1 hs2.
+      revert Hp. generalize (hashes_of host1) (hashes_of host2).
+      induction l as [|a l IH]; intros [|b l'] H; try discriminate; auto.
+      cbn in H. injection H as Hab Hl. cbn [filter].
+      assert (El : is_live now c a = is_live now c b) by (unfold is_live, live; now rewrite Hab).
+      rewrite El. destruct (is_live now c b); cbn [negb map]; [|rewrite Hab; f_equal]; auto. }
+    destruct (svc1 _), (svc2 _); cbn; congruence.
+  Qed.
+
+  (** ** Histories *)
+
+  Definition op_ok (db : list hash) (o : op) : Prop :=
+    match o with OCheck _ svc => svc_ok db svc | _ => True end.
+
+  (** Per step, against a reference verdict [v]: a check that did not fail
+      returns [v host]; a failed one returns "not blocked" and leaves the
+      cache as it was. *)
+  Definition step_transparent (v : bytes -> bool) (before : Z * cache) (o : op)
+      (res : (Z * cache) * option check_out) : Prop :=
+    match o, snd res with
+    | OCheck host _, Some out =>
+        (o_err out = false -> o_blocked out = v host) /\
+        (o_err out = true -> o_blocked out = false /\ snd (fst res) = snd before)
+    | OCheck _ _, None => False
+    | _, _ => True
+    end.
+
+  Fixpoint history_transparent (v : bytes -> bool) (st : Z * cache) (ops : list op)
+      (rs : list ((Z * cache) * option check_out)) : Prop :=
+    match ops, rs with
+    | [], [] => True
+    | o :: ops', r :: rs' => step_transparent v st o r /\ history_transparent v (fst r) ops' rs'
+    | _, _ => False
+    end.
+
+  Lemma history_transparent_ext v v' : (forall h, v h = v' h) ->
+    forall ops st rs, history_transparent v st ops rs -> history_transparent v' st ops rs.
+  Proof.
+    intros E. induction ops as [|o ops IH]; intros st [|r rs]; cbn; auto.
+    intros [H1 H2]. split; auto. unfold step_transparent in *.
+    destruct o; auto. destruct (snd r); auto. now rewrite <- E.
+  Qed.
+
+  Lemma step_inv db o st :
+    cache_inv db (snd st) -> op_ok db o ->
+    cache_inv db (snd (fst (step sha pubsuf suffix cache_time o st))) /\
+    step_transparent (db_verdict db) st o (step sha pubsuf suffix cache_time o st).
+  Proof.
+    destruct st as [now c]. intros Hinv Hok. destruct o as [host svc|d|ps]; cbn [step snd] in *.
+    - pose proof (check_transparent db svc now host c Hinv Hok) as H. cbn zeta in H.
+      destruct (check svc now host c) as [c' out]. cbn [fst snd] in *.
+      unfold step_transparent. cbn [fst snd]. intuition.
+    - cbn. auto.
+    - cbn. split; auto. now apply evict_inv.
+  Qed.
+
+  Theorem run_transparent db : forall ops st,
+    cache_inv db (snd st) -> Forall (op_ok db) ops ->
+    history_transparent (db_verdict db) st ops (run sha pubsuf suffix cache_time ops st).
+  Proof.
+    induction ops as [|o ops IH]; intros st Hinv Hok; cbn [run history_transparent]; auto.
+    inversion Hok as [|? ? Ho Hops]; subst.
+    destruct (step_inv db o st Hinv Ho) as [A B]. split; auto.
+  Qed.
+
+  Lemma check_no_error svc now host c :
+    (forall asked, svc asked <> None) -> o_err (snd (check svc now host c)) = false.
+  Proof.
+    intros H. unfold HashPrefix.check. destruct (find_in_cache _ _ _); auto.
+    specialize (H (map prefix_of hs)). destruct (svc _); [reflexivity|congruence].
+  Qed.
+End WithOracles.
+
+(** * The database service of the model is a lookup service *)
+
+Definition byte_ok (b : N) : Prop := (b < 256)%N.
+Definition hash_wf (h : hash) : Prop := length h = 32%nat /\ Forall byte_ok h.
+
+Lemma unhex_hex n : (n < 16)%N -> unhex (hex_digit n) = Some n.
+Proof.
+  intros H. unfold hex_digit, unhex.
+  destruct (N.ltb_spec n 10).
+  - replace ((48 <=? 48 + n) && (48 + n <=? 57))%N with true.
+    + f_equal. lia.
+    + symmetry. apply andb_true_intro. split; apply N.leb_le; lia.
+  - replace ((48 <=? 87 + n) && (87 + n <=? 57))%N with false.
+    + replace ((97 <=? 87 + n) && (87 + n <=? 102))%N with true.
+      * f_equal. lia.
+      * symmetry. apply andb_true_intro. split; apply N.leb_le; lia.
+    + symmetry. apply andb_false_iff. right. apply N.leb_gt. lia.
+Qed.
+
+Lemma decode_hex_of h : Forall byte_ok h -> decode_hex (hex_of h) = Some h.
+Proof.
+  induction 1 as [|b h Hb _ IH]; [reflexivity|].
+  unfold hex_of in *. cbn [flat_map app decode_hex]. unfold byte_ok in Hb.
+  rewrite !unhex_hex, IH.
+  - f_equal. f_equal. pose proof (N.div_mod b 16). lia.
+  - apply N.mod_lt. lia.
+  - apply N.div_lt_upper_bound; lia.
+Qed.
+
+Lemma hex_of_length h : length (hex_of h) = (2 * length h)%nat.
+Proof. unfold hex_of. induction h; cbn [flat_map length app]; lia. Qed.
+
+Lemma parse_txt_hex l : Forall hash_wf l -> parse_txt (map hex_of l) = l.
+Proof.
+  induction 1 as [|h l [Hl Hb] _ IH]; [reflexivity|].
+  unfold parse_txt in *. cbn [map flat_map]. rewrite IH, hex_of_length, Hl, decode_hex_of by auto.
+  reflexivity.
+Qed.
+
+Lemma db_service_ok db : Forall hash_wf db -> svc_ok db (db_service db).
+Proof.
+  intros Hwf asked. unfold db_service. rewrite parse_txt_hex.
+  - intros h. now rewrite filter_In, mem_hash_In.
+  - apply Forall_forall. intros h Hh. apply filter_In in Hh.
+    eapply Forall_forall in Hwf; [exact Hwf|tauto].
+Qed.
+
+(** * Fresh lookups and the final statements *)
+
+Section Final.
+  Variable sha : bytes -> hash.
+  Variable pubsuf : bytes -> bytes * bool.
+  Variable suffix : bytes.
+  Variable cache_time : Z.
+
+  (** The verdict of a lookup made with an empty cache at instant [now]. *)
+  Definition fresh_verdict (db : list hash) (now : Z) (host : bytes) : bool :=
+    o_blocked (snd (check sha pubsuf suffix cache_time (db_service db) now host [])).
+
+  Lemma fresh_verdict_db db now host :
+    Forall hash_wf db -> fresh_verdict db now host = db_verdict sha pubsuf db host.
+  Proof.
+    intros Hwf. unfold fresh_verdict. apply fresh_check_verdict.
+    - now apply db_service_ok.
+    - apply check_no_error. discriminate.
+  Qed.
+
+  Theorem verdict_spec db now host : Forall hash_wf db ->
+    fresh_verdict db now host = true <->
+    exists n, In n (names_to_hash pubsuf host) /\ In (sha n) db.
+  Proof. intros Hwf. rewrite fresh_verdict_db by auto. apply db_verdict_spec. Qed.
+
+  (** The same in terms of the answer: blocked iff one of the well-formed
+      strings of the answer is the full hash of an enumerated name. *)
+  Theorem verdict_answer_spec svc now host strs hs :
+    find_in_cache now [] (hostname_to_hashes sha pubsuf host) = ToRequest hs ->
+    svc (map prefix_of hs) = Some strs ->
+    o_blocked (snd (check sha pubsuf suffix cache_time svc now host [])) = true <->
+    exists h, In h hs /\ In h (parse_txt strs).
+  Proof.
+    intros F S. unfold check. rewrite F, S. cbn [snd o_blocked]. apply find_match_spec.
+  Qed.
+
+  Lemma find_in_empty_cache now hashes :
+    find_in_cache now [] hashes = match hashes with [] => FoundClean | _ => ToRequest hashes end.
+  Proof.
+    pose proof (find_in_cache_spec now [] hashes) as S.
+    assert (L : forall h, is_live now [] h = false) by reflexivity.
+    assert (E : filter (fun h => negb (is_live now [] h)) hashes = hashes).
+    { clear S. induction hashes as [|a l IH]; cbn [filter]; auto. rewrite L. cbn [negb]. now rewrite IH. }
+    destruct (find_in_cache now [] hashes) as [| |hs].
+    - destruct S as (h & it & _ & _ & Hl & _). discriminate.
+    - destruct hashes as [|a l]; auto. destruct (S a) as (it & Hl & _); [now left|discriminate].
+    - destruct S as (-> & Hne & _). rewrite E in *. destruct hashes; congruence.
+  Qed.
+
+  Theorem cache_transparent db ops now0 :
+    Forall hash_wf db -> Forall (op_ok db) ops ->
+    forall now', history_transparent (fresh_verdict db now') (now0, []) ops
+                   (run sha pubsuf suffix cache_time ops (now0, [])).
+  Proof.
+    intros Hwf Hok now'.
+    apply history_transparent_ext with (v := db_verdict sha pubsuf db).
+    - intros h. symmetry. now apply fresh_verdict_db.
+    - apply run_transparent; auto. intros p it; discriminate.
+  Qed.
+End Final.
+
+(** * Enumeration of the hashed names *)
+
+(** [n] is [d] or what follows one of its dots. *)
+Definition aligned_suffix (n d : bytes) : Prop :=
+  n = d \/ exists pre, d = pre ++ dot :: n.
+
+Lemma subdomains_from_spec n : forall d,
+  In n (subdomains_from d) <-> exists pre, d = pre ++ dot :: n.
+Proof.
+  induction d as [|b d IH]; cbn [subdomains_from].
+  - split; [intros []|]. intros ([|? ?] & H); discriminate.
+  - destruct (N.eqb_spec b dot) as [->|Nb].
+    + cbn [In]. rewrite IH. split.
+      * intros [<-|(pre & ->)]; [now exists []|]. now exists (dot :: pre).
+      * intros ([|x pre] & H); cbn in H; injection H as H; subst; eauto.
+    + rewrite IH. split.
+      * intros (pre & ->). now exists (b :: pre).
+      * intros ([|x pre] & H); cbn in H; injection H as H; subst; [congruence|eauto].
+Qed.
+
+Lemma subdomains_spec d n : In n (subdomains d) <-> d <> [] /\ aligned_suffix n d.
+Proof.
+  unfold subdomains, aligned_suffix. destruct d as [|b d].
+  - split; [intros []|]. intros [H _]. congruence.
+  - cbn [In]. rewrite subdomains_from_spec. split.
+    + intros [<-|H]; (split; [discriminate|auto]).
+    + intros [_ [->|H]]; auto.
+Qed.
+
+Lemma count_rev b s : count b (rev s) = count b s.
+Proof.
+  induction s as [|c s IH]; cbn [rev count]; auto.
+  rewrite count_app, IH. cbn [count]. destruct (c =? b)%N; lia.
+Qed.
+
+Lemma last_labels_spec : forall r nd acc, (nd <= 3)%nat ->
+  (count dot r + nd < 4 /\ last_labels r nd acc = rev r ++ acc)%nat \/
+  (exists r1 r2, r = r1 ++ dot :: r2 /\ (count dot r1 + nd = 3)%nat /\
+                 last_labels r nd acc = rev r1 ++ acc).
+Proof.
+  induction r as [|b r IH]; intros nd acc Hnd; cbn [last_labels].
+  - left. cbn. split; [lia|reflexivity].
+  - destruct (N.eqb_spec b dot) as [->|Nb].
+    + destruct (Nat.eqb_spec (S nd) 4) as [E|E].
+      * right. exists [], r. cbn. repeat split; auto; lia.
+      * destruct (IH (S nd) (dot :: acc)) as [[H1 H2]|(r1 & r2 & H1 & H2 & H3)]; [lia| |].
+        -- left. cbn [count rev]. rewrite N.eqb_refl, <- app_assoc. split; [lia|exact H2].
+        -- right. exists (dot :: r1), r2. subst r. cbn [count rev app]. rewrite N.eqb_refl, <- app_assoc.
+           repeat split; auto. lia.
+    + apply N.eqb_neq in Nb.
+      destruct (IH nd (b :: acc) Hnd) as [[H1 H2]|(r1 & r2 & H1 & H2 & H3)].
+      * left. cbn [count rev]. rewrite Nb, <- app_assoc. split; [lia|exact H2].
+      * right. exists (b :: r1), r2. subst r. cbn [count rev app]. rewrite Nb, <- app_assoc.
+        repeat split; auto.
+Qed.
+
+(** The names are taken from the last four labels of the host. *)
+Lemma trim_host_spec host :
+  (count dot host < 4 /\ trim_host host = host)%nat \/
+  (exists pre, host = pre ++ dot :: trim_host host /\ count dot (trim_host host) = 3%nat).
+Proof.
+  unfold trim_host.
+  destruct (last_labels_spec (rev host) 0 [] ltac:(lia)) as [[H1 H2]|(r1 & r2 & H1 & H2 & H3)].
+  - left. rewrite count_rev, Nat.add_0_r in H1. rewrite H2, app_nil_r, rev_involutive. auto.
+  - right. rewrite H3, app_nil_r. exists (rev r2). split.
+    + rewrite <- (rev_involutive host), H1, rev_app_distr. cbn [rev]. now rewrite <- app_assoc.
+    + rewrite count_rev. lia.
+Qed.
+
+(** The loop with [break]: the longest-first candidates up to, and excluding,
+    the first one equal to the public suffix. *)
+Lemma take_until_eq_spec ps l :
+  exists l2, l = take_until_eq ps l ++ l2 /\
+             Forall (fun m => m <> ps) (take_until_eq ps l) /\
+             (l2 = [] \/ exists l3, l2 = ps :: l3).
+Proof.
+  induction l as [|s l (l2 & E & F & T)]; cbn [take_until_eq].
+  - exists []. auto.
+  - destruct (eqb_bytes s ps) eqn:Es.
+    + apply eqb_bytes_eq in Es. subst. exists (ps :: l). cbn. eauto.
+    + apply eqb_bytes_neq in Es. exists l2. cbn [app]. rewrite <- E. auto.
+Qed.
+
+Definition effective_suffix (r : bytes * bool) : bytes := if snd r then fst r else [].
+
+Lemma names_to_hash_spec pubsuf host :
+  let cands := subdomains (trim_host host) in
+  let ps := effective_suffix (pubsuf host) in
+  exists rest, cands = names_to_hash pubsuf host ++ rest /\
+               Forall (fun m => m <> ps) (names_to_hash pubsuf host) /\
+               (rest = [] \/ exists l3, rest = ps :: l3).
+Proof.
+  unfold names_to_hash, effective_suffix. destruct (pubsuf host) as [ps icann]. cbn [fst snd].
+  apply take_until_eq_spec.
+Qed.
+
+(** * Non-vacuity: concrete instances *)
+
+Module Examples.
+  Local Open Scope N_scope.
+  (* toy oracles: the "hash" of a name is two bytes derived from its length
+     and first byte, followed by the name padded to 32 bytes *)
+  Definition pad (s : bytes) : bytes := firstn 30 (s ++ repeat 0 30).
+  Definition sha (s : bytes) : hash := [N.of_nat (length s); hd 0 s] ++ pad s.
+  Definition co_uk : bytes := [99;111;46;117;107].
+  Definition pubsuf (_ : bytes) : bytes * bool := (co_uk, true).
+  Definition sfx : bytes := [115;98;46].
+  (* a.b.c.evil.co.uk *)
+  Definition host1 : bytes := [97;46;98;46;99;46;101;118;105;108;46;99;111;46;117;107].
+  Definition evil : bytes := [101;118;105;108;46;99;111;46;117;107].
+  (* zvil.co.uk: same toy prefix as evil.co.uk?  no: first byte differs; wvil -> differs.
+     eviL.co.uk shares length and first byte, hence the prefix, with evil.co.uk *)
+  Definition twin : bytes := [101;118;105;76;46;99;111;46;117;107].
+  Definition db : list hash := [sha evil].
+  Definition ct : Z := (3650 * ns_sec)%Z.
+  Definition ops : list op :=
+    [OCheck twin (db_service db); OCheck host1 (db_service db); OAdvance (4000 * ns_sec)%Z;
+     OCheck host1 (fun _ => None); OEvict [prefix_of (sha evil)]; OCheck evil (db_service db)].
+End Examples.
+
+Example names_example :
+  names_to_hash Examples.pubsuf Examples.host1
+  = [[99;46;101;118;105;108;46;99;111;46;117;107]%N; Examples.evil].
+Proof. vm_compute. reflexivity. Qed.
+
+Example db_wf_example : Forall hash_wf Examples.db.
+Proof.
+  repeat constructor; vm_compute; try reflexivity; intros; discriminate.
+Qed.
+
+(** A history that exercises: a clean twin storing a positive entry, a hit
+    from that entry, expiry, a failing upstream, eviction. *)
+Example history_example :
+  map (fun r => match snd r with Some o => Some (o_blocked o, o_err o) | None => None end)
+      (run Examples.sha Examples.pubsuf Examples.sfx Examples.ct Examples.ops (0%Z, []))
+  = [Some (false, false); Some (true, false); None; Some (false, true); None; Some (true, false)]
+  /\ Forall (op_ok Examples.db) Examples.ops.
+Proof.
+  split; [vm_compute; reflexivity|].
+  pose proof (db_service_ok _ db_wf_example).
+  unfold Examples.ops.
+  repeat (apply Forall_cons; [cbn [op_ok]; first [exact H | exact I | intros ?; exact I]|]).
+  apply Forall_nil.
+Qed.
+
+Example same_prefixes_example :
+  map prefix_of (hostname_to_hashes Examples.sha Examples.pubsuf Examples.evil)
+  = map prefix_of (hostname_to_hashes Examples.sha Examples.pubsuf Examples.twin)
+  /\ Examples.evil <> Examples.twin.
+Proof. split; [vm_compute; reflexivity|discriminate]. Qed.
